@@ -2,6 +2,10 @@
   C34 — native rendering returns the value itself or the literal value of the text.
 -/
 import JinjaV.Model.Native
+import JinjaV.Model.NativeTpl
+import JinjaV.Lemmas.LexData
+import JinjaV.Lemmas.NativeTplGuard
+import JinjaV.Gen.NativeGuards
 
 namespace JinjaV.C34
 open JinjaV.Native
@@ -44,5 +48,67 @@ theorem text_is_concatenation {L : Type} (isGen : Bool) (a b : Val) (rest : List
 -- non-vacuity
 example : nativeConcat (fun s => if s = "12" then some (12 : Nat) else none) true [.str "1", .obj 7 "2"] = .literal 12 := by
   decide
+
+/-! ### templates: one expression plus material that compiles to nothing -/
+
+open JinjaV.Lex JinjaV.NativeTpl
+
+/-- **no empty data token**: for every configuration and source, the lexer model emits no `data` token with an
+    empty text — whitespace removed by a `-` sign, `lstrip_blocks` or `trim_blocks` leaves no token behind -/
+theorem lex_data_nonempty (cfg : Cfg) (src : Str) (toks : List Tok) (h : tokeniter cfg src = .ok toks) :
+    ∀ t ∈ toks, t.kind = .data → t.text ≠ [] := by
+  have := JinjaV.LexData.tokeniter_ok cfg src
+  rw [h] at this
+  exact this
+
+/-- … hence the parser is never handed one (`Lexer.wrap` keeps the text of a data token) -/
+theorem wrap_data_nonempty (cfg : Cfg) (src : Str) (toks : List Tok) (h : tokeniter cfg src = .ok toks) :
+    PTok.data [] ∉ wrap toks := by
+  intro hm
+  simp only [wrap, List.mem_filterMap] at hm
+  obtain ⟨t, ht, hw⟩ := hm
+  have hne := lex_data_nonempty cfg src toks h t ht
+  unfold wrapTok at hw
+  split at hw <;> simp_all
+
+/-- **guards in the source** (READ on every run, `Gen/NativeGuards.lean`): at least one of the two stages that can
+    drop an empty data token does so — the lexer (`data ∈ ignore_if_empty`, the emptiness test guards the yield and is
+    made on the yielded value) or `Parser.subparse` (`if token.value:`) -/
+theorem source_guards_present :
+    JinjaV.Gen.NativeGuards.lexerDropsEmptyData = true ∨ JinjaV.Gen.NativeGuards.subparseSkipsEmptyData = true := by
+  decide
+
+/-- with the parser's guard an empty data token changes nothing: not the pieces, not the Output grouping -/
+theorem empty_data_invisible (n : Nat) (r : List PTok) (st : NativeTpl.St) :
+    interp true (n + 1) (.data [] :: r) st = interp true n r st := by
+  simp [interp]
+
+/-- … and because the lexer stage hands over no empty data token (`wrap_data_nonempty`), the parser's guard is
+    redundant for every source: the pieces are the same with and without it.  Either stage alone keeps an empty
+    string from being yielded next to the expression; `source_guards_present` says one of them is in the source. -/
+theorem pieces_independent_of_parser_guard (cfg : Cfg) (src : Str) (vars : List (Str × Option Val))
+    (conds : List (Str × Bool)) :
+    piecesOfSource true cfg src vars conds = piecesOfSource false cfg src vars conds := by
+  unfold piecesOfSource
+  split
+  · rename_i toks h
+    unfold pieces
+    rw [JinjaV.NativeTplGuard.guard_irrelevant _ _ _ (wrap_data_nonempty cfg src toks h)
+      (by simpa [initState] using JinjaV.NativeTplGuard.macrosOk_nil)]
+  · rfl
+
+/-- without the guard it becomes a piece of its own next to an expression (what the guard is for) -/
+example : pieces false [.data [], .varBegin, .name ['x'], .varEnd] [(['x'], some (.obj 0 "o"))] [] =
+    some [.str "", .obj 0 "o"] := by decide
+example : pieces true [.data [], .varBegin, .name ['x'], .varEnd] [(['x'], some (.obj 0 "o"))] [] =
+    some [.obj 0 "o"] := by decide
+
+/-- **C34, single expression**: a template whose pieces are one non-string value renders to that value itself,
+    through `render` (list) and `render_async` (list of the async generator's items), for any literal evaluator -/
+theorem single_piece_template_returns_value {L : Type} (litEval : String → Option L) (isGen guard : Bool) (cfg : Cfg)
+    (src : Str) (vars : List (Str × Option Val)) (conds : List (Str × Bool)) (id : Nat) (s : String)
+    (h : piecesOfSource guard cfg src vars conds = some [.obj id s]) :
+    render litEval isGen guard cfg src vars conds = some (.value (.obj id s)) := by
+  simp [render, h, single_value_identity]
 
 end JinjaV.C34
